@@ -6,6 +6,8 @@ pub mod advp;
 pub mod c01;
 pub mod c02;
 pub mod c03;
+pub mod c04;
+pub mod c05;
 pub mod c09;
 pub mod c10;
 pub mod c11;
@@ -28,6 +30,8 @@ pub fn meta(prop: &str) -> PropMeta {
         "C01" => c01::META,
         "C02" => c02::META,
         "C03" => c03::META,
+        "C04" => c04::META,
+        "C05" => c05::META,
         "C06" => advp::META_C06,
         "C07" => advp::META_C07,
         "C08" => advp::META_C08,
@@ -46,7 +50,7 @@ pub fn meta(prop: &str) -> PropMeta {
 }
 
 pub fn known(prop: &str) -> bool {
-    matches!(prop, "C01" | "C02" | "C03" | "C06" | "C07" | "C08" | "C09" | "C10" | "C11" | "C12" | "C13" | "C14" | "C15" | "C16" | "C17" | "C18")
+    matches!(prop, "C01" | "C02" | "C03" | "C04" | "C05" | "C06" | "C07" | "C08" | "C09" | "C10" | "C11" | "C12" | "C13" | "C14" | "C15" | "C16" | "C17" | "C18")
 }
 
 pub fn run(ctx: &mut Ctx) {
@@ -54,6 +58,8 @@ pub fn run(ctx: &mut Ctx) {
         "C01" => c01::run(ctx),
         "C02" => c02::run(ctx),
         "C03" => c03::run(ctx),
+        "C04" => c04::run(ctx),
+        "C05" => c05::run(ctx),
         "C06" => advp::run_c06(ctx),
         "C07" => advp::run_c07(ctx),
         "C08" => advp::run_c08(ctx),
@@ -77,6 +83,8 @@ pub fn replay(ctx: &mut Ctx, stage: &str, case: &Value) -> Check {
         "C01" => c01::replay(ctx, stage, case),
         "C02" => c02::replay(ctx, stage, case),
         "C03" => c03::replay(ctx, stage, case),
+        "C04" => c04::replay(ctx, stage, case),
+        "C05" => c05::replay(ctx, stage, case),
         "C06" | "C07" | "C08" => advp::replay(ctx, stage, case),
         "C09" => c09::replay(ctx, stage, case),
         "C10" => c10::replay(ctx, stage, case),
